@@ -93,6 +93,12 @@ def run_auto(sc):
                     getattr(a, op[0])(op[1], **args)
                 elif op[0] == "jump_to":
                     a.jump_to(op[1])
+                elif op[0] == "set_range":
+                    a.range = None if op[1] is None else tuple(op[1])
+                elif op[0] == "set_boundaries":
+                    a.boundaries = op[1]
+                elif op[0] == "set_default":
+                    a.default_duration = op[1]
                 elif op[0] == "bind":
                     ident = nbind[0]
                     nbind[0] += 1
@@ -149,12 +155,74 @@ def run_lfo(sc):
     return out
 
 
+def run_lfo_script(sc):
+    """an LFO that is re-configured after construction, between ticks: attribute assignment, LFO.update,
+    Timeline.lfo(params, name=<its name>) (documented in-place update), LFO.reset, a second LFO created under
+    another name; observed after every operation and every tick: lfo.value, two reads of the same PLFO, a read
+    of a PLFO made afresh, the bound attribute, what scheduled tracks read"""
+    dev = Dev()
+    tl = iso.Timeline(output_device=dev, clock_source=iso.DummyClock(ticks_per_beat=sc["tpb"]))
+    out = {"raise": None, "segs": []}
+    try:
+        lfo = tl.lfo({"shape": "sine", "frequency": sc["freq"], "min": sc["min"], "max": sc["max"]}, name="mod")
+        out["init"] = f(lfo.value)
+        out["registered"] = lfo in tl.lfos
+        pat = iso.Pattern.pattern(lfo)
+        out["pattern_class"] = type(pat).__name__
+        out["init_pattern"] = f(next(pat))
+
+        class Holder:
+            cutoff = None
+        h = Holder()
+        lfo.bind(h, "cutoff")
+        seen = []
+        tl.schedule({"control": 7, "value": lfo, "channel": 2, "duration": sc["every"] / sc["tpb"]})
+        tl.schedule({"action": lambda x: seen.append([dev.now, f(x)]), "args": {"x": pat}, "duration": sc["every"] / sc["tpb"]})
+        k = 0
+        nother = 0
+        for sg in sc["segs"]:
+            rec = {"value": None, "pattern": None, "same": None, "n_lfos": None, "ticks": []}
+            out["segs"].append(rec)
+            op = sg.get("op")
+            if op is not None:
+                if op[0] == "set":
+                    setattr(lfo, op[1], op[2])
+                elif op[0] == "update":
+                    lfo.update(dict(op[1]))
+                elif op[0] == "tl_lfo":
+                    r = tl.lfo(dict(op[1]), name="mod")
+                    rec["same"] = r is lfo
+                    rec["n_lfos"] = len(tl.lfos)
+                elif op[0] == "tl_other":
+                    nother += 1
+                    r = tl.lfo(dict(op[1]), **({"name": "other%d" % nother} if op[2] else {}))
+                    rec["same"] = r is lfo
+                    rec["n_lfos"] = len(tl.lfos)
+                elif op[0] == "reset":
+                    lfo.reset()
+                elif op[0] == "new_pattern":
+                    pat = iso.PLFO(lfo)
+                rec["value"] = f(lfo.value)
+                rec["pattern"] = [f(next(pat)), f(next(pat)), f(next(iso.PLFO(lfo)))]
+            for _ in range(sg.get("ticks", 0)):
+                dev.now = k
+                k += 1
+                tl.tick()
+                rec["ticks"].append([f(lfo.value), f(next(pat)), f(next(pat)), f(next(iso.Pattern.pattern(lfo))), f(h.cutoff)])
+        out.update({"controls": [[c[0], f(c[2])] for c in dev.log if c[1] == 7 and c[3] == 2], "action_args": seen})
+    except Exception as e:
+        out["raise"] = type(e).__name__
+        out["message"] = str(e)[:200]
+    return out
+
+
 def main():
     req = json.load(sys.stdin)
     sink = io.StringIO()
     with contextlib.redirect_stdout(sink), contextlib.redirect_stderr(sink):
         res = {"autos": [run_auto(sc) for sc in req.get("autos", [])],
-               "lfos": [run_lfo(sc) for sc in req.get("lfos", [])]}
+               "lfos": [run_lfo(sc) for sc in req.get("lfos", [])],
+               "lfo_scripts": [run_lfo_script(sc) for sc in req.get("lfo_scripts", [])]}
     res["noise"] = sink.getvalue()[-500:]
     json.dump(res, sys.stdout)
 
